@@ -117,7 +117,7 @@ func main() {
 					headerCutNoMsg := strings.HasPrefix(where, "inside-header") && len(lower) == len(upper) && !openAt(st.frames, ends, cut)
 					// "/bufio": the same source behind a *bufio.Reader (16-byte buffer), the usual way a
 					// connection reaches the library; it offers Discard, Peek, WriteTo besides Read
-					for _, kind := range []string{"EOF", "error", "error-with-last-bytes", "EOF-with-last-bytes", "EOF/bufio", "error/bufio"} {
+					for _, kind := range []string{"EOF", "error", "error-with-last-bytes", "EOF-with-last-bytes", "EOF/bufio", "error/bufio", "error-temporary"} {
 						for _, d := range ds {
 							cut, kind, d := cut, kind, d
 							t.Do(func() string {
@@ -127,6 +127,10 @@ func main() {
 								src.Cut = cut
 								if strings.HasPrefix(kind, "error") {
 									src.EndErr = env.ErrInjected
+								}
+								if kind == "error-temporary" {
+									// a transport error that calls itself temporary (and a timeout) and persists
+									src.EndErr = env.TempErr{IsTimeout: true}
 								}
 								src.WithLast = strings.HasSuffix(kind, "-with-last-bytes")
 								var res drivers.Result
